@@ -276,6 +276,7 @@ type Contract struct {
 	LoopMod   map[int][]*ModClause
 	Asserts   []*Clause
 	Observes  []*Observe
+	Fresh     map[string]bool
 	SubParams map[string]*Contract // contracts on function-typed parameters
 	Trusted   bool
 	NoPanic   bool
@@ -329,7 +330,7 @@ func NewSpecDB() *SpecDB {
 	return &SpecDB{Contracts: map[string]*Contract{}, Funcs: map[string]*SpecFunc{}, Records: map[string]*Record{}, Models: map[string]*ModelField{}, Preds: map[string]*Pred{}}
 }
 
-var clauseKW = map[string]bool{"requires": true, "ensures": true, "modifies": true, "crash_inv": true, "loop": true, "observe": true, "param": true, "trusted": true, "nopanic": true, "pure": true, "noinline": true, "inline": true, "property": true, "assert": true}
+var clauseKW = map[string]bool{"fresh": true, "requires": true, "ensures": true, "modifies": true, "crash_inv": true, "loop": true, "observe": true, "param": true, "trusted": true, "nopanic": true, "pure": true, "noinline": true, "inline": true, "property": true, "assert": true}
 var topKW = map[string]bool{"func": true, "package": true, "record": true, "spec": true, "model": true, "pred": true, "axiom": true}
 
 // LoadFile parses one contract file. pkgPath is the import path the file's functions live in
@@ -628,6 +629,13 @@ func parseMods(rest string) ([]*ModClause, error) {
 
 func parseClauseInto(c *Contract, kw, rest, where string) error {
 	switch kw {
+	case "fresh":
+		if c.Fresh == nil {
+			c.Fresh = map[string]bool{}
+		}
+		for _, n := range strings.Split(rest, ",") {
+			c.Fresh[strings.TrimSpace(n)] = true
+		}
 	case "trusted":
 		c.Trusted = true
 	case "nopanic":
